@@ -117,6 +117,19 @@ fn sub_lookup(input: &[u8], st: &mut Stats) -> R {
             ));
         }
     }
+    // "iff the number is a declared opcode", against the enumeration itself (not only against the
+    // golden list): an opcode the `spirv` crate declares must have an entry, and looking it up by
+    // value must not fail
+    let declared = no_panic("spirv::Op::from_u32", || spirv::Op::from_u32(n))?;
+    if declared.is_some() != got.is_some() {
+        return Err(Fail::new("declared-iff-entry", format!("core:{}", n), format!("spirv::Op::from_u32({}) = {:?} but lookup_opcode({}) = {:?}", n, declared, n, got.map(|e| e.opname))));
+    }
+    if let Some(op) = declared {
+        let e2 = no_panic("CoreInstructionTable::get", || CoreInstructionTable::get(op))?;
+        if e2.opcode != op {
+            return Err(Fail::new("get-total", format!("{:?}", op), format!("get({:?}) returns the entry of {:?}", op, e2.opcode)));
+        }
+    }
     // neighbours of declared numbers are the interesting undeclared probes
     if want.is_none() && (g.core_by_code.contains_key(&(n.wrapping_sub(1))) || g.core_by_code.contains_key(&(n + 1))) {
         st.nontrivial(n as u64);
@@ -125,6 +138,30 @@ fn sub_lookup(input: &[u8], st: &mut Stats) -> R {
 }
 
 fn ext_check(set: &str, n: u32, got: Option<&'static ExtendedInstruction<'static>>, table: &[GInst]) -> R {
+    // against the opcode enumeration itself: declared iff an entry exists, get never fails
+    if set == "glsl" {
+        let d = no_panic("spirv::GLOp::from_u32", || spirv::GLOp::from_u32(n))?;
+        if d.is_some() != got.is_some() {
+            return Err(Fail::new("declared-iff-entry", format!("glsl:{}", n), format!("GLOp::from_u32({}) = {:?} but lookup_opcode = {:?}", n, d, got.map(|e| e.opname))));
+        }
+        if let Some(op) = d {
+            let e = no_panic("GlslStd450InstructionTable::get", || GlslStd450InstructionTable::get(op))?;
+            if e.opcode != n {
+                return Err(Fail::new("get-total", format!("glsl:{}", n), format!("get({:?}) returns entry number {}", op, e.opcode)));
+            }
+        }
+    } else {
+        let d = no_panic("spirv::CLOp::from_u32", || spirv::CLOp::from_u32(n))?;
+        if d.is_some() != got.is_some() {
+            return Err(Fail::new("declared-iff-entry", format!("opencl:{}", n), format!("CLOp::from_u32({}) = {:?} but lookup_opcode = {:?}", n, d, got.map(|e| e.opname))));
+        }
+        if let Some(op) = d {
+            let e = no_panic("OpenCLStd100InstructionTable::get", || OpenCLStd100InstructionTable::get(op))?;
+            if e.opcode != n {
+                return Err(Fail::new("get-total", format!("opencl:{}", n), format!("get({:?}) returns entry number {}", op, e.opcode)));
+            }
+        }
+    }
     let want = table.iter().find(|i| i.opcode == n);
     match (got, want) {
         (None, None) => Ok(()),
@@ -208,15 +245,21 @@ fn sub_tables(input: &[u8], st: &mut Stats) -> R {
     let g = golden();
     if i == 0 {
         // iteration = golden, uniqueness
-        let entries: Vec<&'static Instruction<'static>> = CoreInstructionTable::iter().collect();
+        // (the order in which iter() yields the entries is not part of the property: compared by number)
+        let mut entries: Vec<&'static Instruction<'static>> = CoreInstructionTable::iter().collect();
         if entries.len() != g.core.len() {
             return Err(Fail::new("table-size", "core", format!("{} entries, golden {}", entries.len(), g.core.len())));
         }
         let mut seen = std::collections::BTreeSet::new();
-        for (e, w) in entries.iter().zip(&g.core) {
+        for e in &entries {
             if !seen.insert(e.opcode as u32) {
                 return Err(Fail::new("unique", format!("core:{}", e.opname), format!("two entries share number {}", e.opcode as u32)));
             }
+        }
+        entries.sort_by_key(|e| e.opcode as u32);
+        let mut gcore: Vec<&crate::golden::GInst> = g.core.iter().collect();
+        gcore.sort_by_key(|w| w.opcode);
+        for (e, w) in entries.iter().zip(gcore) {
             core_entry(e, w)?;
             st.evaluations += 1;
         }
@@ -231,20 +274,22 @@ fn sub_tables(input: &[u8], st: &mut Stats) -> R {
             st.evaluations += 1;
         }
         for (set, ename, table) in [("glsl", "GLOp", &g.glsl), ("opencl", "CLOp", &g.opencl)] {
-            let names: Vec<(u32, String)> = if set == "glsl" {
+            let mut names: Vec<(u32, String)> = if set == "glsl" {
                 GlslStd450InstructionTable::iter().map(|e| (e.opcode, e.opname.to_string())).collect()
             } else {
                 OpenCLStd100InstructionTable::iter().map(|e| (e.opcode, e.opname.to_string())).collect()
             };
-            let want: Vec<(u32, String)> = table.iter().map(|i| (i.opcode, i.opname.clone())).collect();
-            if names != want {
-                return Err(Fail::new("table-size", set, format!("{} table differs from golden", set)));
-            }
             let mut seen = std::collections::BTreeSet::new();
             for (n, _) in &names {
                 if !seen.insert(*n) {
                     return Err(Fail::new("unique", set, format!("{}: number {} twice", set, n)));
                 }
+            }
+            let mut want: Vec<(u32, String)> = table.iter().map(|i| (i.opcode, i.opname.clone())).collect();
+            names.sort();
+            want.sort();
+            if names != want {
+                return Err(Fail::new("table-size", set, format!("{} table differs from golden (as a set of (number, name))", set)));
             }
             let eg = g.enums.get(ename).unwrap();
             for v in &eg.values {
